@@ -300,6 +300,12 @@ class Model:
 
         # plain class
         L.append(head)
+        if c.get('inherit_init'):
+            # same parameters as the (single) base, whose __init__ is used
+            L.extend(h.rstrip('\n') for h in hooks)
+            if not hooks:
+                L.append('    pass')
+            return '\n'.join(L) + '\n'
         sig = ['self']
         any_default = False
         for p in params:
@@ -322,14 +328,14 @@ class Model:
         L.append('    def __init__(%s) -> None:' % ', '.join(sig))
         # _yatiml_defaults (own or inherited): the constructor turns None
         # into that value, the documented use of the feature
-        ovr = self._effective_override(c)
-        for p in params:
-            if p['name'] in ovr and p.get('default', 0) is None:
-                ns['_OV_%s_%s' % (name, p['name'])] = dec(
-                    ovr[p['name']], self)
-                L.append('        if %s is None:' % p['name'])
-                L.append('            %s = _copy(_OV_%s_%s)' % (
-                    p['name'], name, p['name']))
+        if any(x.get('defaults_override') for x in self.spec['classes']):
+            for p in params:
+                if p.get('default', 0) is None:
+                    # looked up on the object's own class: subclasses that
+                    # inherit this __init__ may have their own dict
+                    L.append('        if %s is None:' % p['name'])
+                    L.append('            %s = _RT.override_for(type(self), '
+                             '%r)' % (p['name'], p['name']))
         args = ', '.join('%r: %s' % (p['name'], p['name']) for p in params)
         if c.get('extra'):
             L.append('        if _yatiml_extra is None:')
@@ -350,6 +356,13 @@ class Model:
             L.append('        return _RT.on_attributes(%r, self)' % name)
         L.extend(h.rstrip('\n') for h in hooks)
         return '\n'.join(L) + '\n'
+
+    def override_for(self, cls, pname):
+        import copy
+        d = getattr(cls, '_yatiml_defaults', None)
+        if d and pname in d:
+            return copy.deepcopy(d[pname])
+        return None
 
     def _effective_override(self, c):
         """defaults_override of the nearest class in the (single
@@ -564,6 +577,11 @@ def apply_season(model, name, cls, op, node):
             i = node.get_attribute(op[1]).get_value()
             if 0 <= i < len(WORDS):
                 node.set_attribute(op[1], WORDS[i])
+    elif k == 'add_int':
+        # not idempotent on purpose: applying it twice shows
+        if node.is_mapping() and node.has_attribute_type(op[1], int):
+            node.set_attribute(
+                op[1], node.get_attribute(op[1]).get_value() + op[2])
     elif k == 'remove_attr':
         if node.is_mapping():
             node.remove_attribute(op[1])
